@@ -7,7 +7,10 @@ use crate::spmc::topic::async_impl::{AsyncTopicReceiver, AsyncTopicSender};
 use crate::{CloseError, RecvErrorTimeout, TryRecvError};
 
 use std::borrow::Borrow;
+#[cfg(not(excsn_fibre_verif))]
 use std::collections::HashSet;
+#[cfg(excsn_fibre_verif)]
+use fibre_verif_rt::hash::HashSet;
 use std::hash::Hash;
 use std::mem;
 #[cfg(not(excsn_fibre_verif))]
